@@ -30,15 +30,9 @@ Proof.
 Qed.
 
 (* ---------- what the generated facts say (re-checked whenever Params.v changes) ---------- *)
-Lemma p_all_locked : all_bodies_locked = true. Proof. reflexivity. Qed.
-Lemma p_api_reset : api_mutations_reset = true. Proof. reflexivity. Qed.
-Lemma p_fetch_reset : fetch_resets_after_push = true. Proof. reflexivity. Qed.
-Lemma p_sched_before_lock : schedule_trigger_before_lock = true. Proof. reflexivity. Qed.
 Lemma p_sched_clock : schedule_trigger_reads_clock = true. Proof. reflexivity. Qed.
 Lemma p_resume_clock : resume_trigger_reads_clock = true. Proof. reflexivity. Qed.
 Lemma p_resume_order : resume_trigger_before_remove = true. Proof. reflexivity. Qed.
-Lemma p_pause_order : pause_get_remove_push = true. Proof. reflexivity. Qed.
-Lemma p_fetch_order : fetch_pop_validate_push = true. Proof. reflexivity. Qed.
 Lemma p_sched_sent : schedule_arg_sentinels = [SIllegalArgument; SIllegalArgument; SIllegalArgument; SIllegalArgument].
 Proof. reflexivity. Qed.
 
